@@ -116,6 +116,10 @@ def check_read_logged(c, repo, f):
 
 def popen_eof_branch_carries_no_data(f, r):
     g = f.cfg
+    # the exception applies only INSIDE the branch taken when the end of the stream was already seen
+    eb = [t for t in g.nodes if t.kind == 'test' and norm(t.ast) == 'self._read_reached_eof']
+    if len(eb) != 1 or r not in guard_region(g, eb[0], 'true'):
+        return False, 'this return is not in the `if self._read_reached_eof` branch: it can carry data that was never logged'
     flags = [n for n in g.nodes if n.kind == 'stmt' and stmt_assigns_attr(n.ast, '_read_reached_eof') is not None]
     if len(flags) != 1:
         return False, 'the EOF flag is assigned at %d sites' % len(flags)
@@ -340,6 +344,7 @@ MUTANTS = [
     ('pty-relog', 'pty_spawn', "                    # Don't raise EOF, just return what we read so far.\n                    return incoming", "                    self._log(incoming, 'read')\n                    return incoming", 'D1'),
     ('socket-no-log', 'socket_pexpect', "                s = self._decoder.decode(s, final=False)\n                self._log(s, 'read')\n                return s", "                s = self._decoder.decode(s, final=False)\n                return s", 'D1'),
     ('popen-log-before-slice', 'popen_spawn', "        r, self._buf = buf[:size], buf[size:]\n\n        self._log(r, 'read')\n        return r", "        self._log(buf, 'read')\n        r, self._buf = buf[:size], buf[size:]\n        return r", 'D1'),
+    ('popen-fast-path-unlogged', 'popen_spawn', "        if timeout == -1:\n            timeout = self.timeout\n        if timeout is None:", "        if len(buf) >= size > 0:\n            self._buf = buf[size:]\n            return buf[:size]\n        if timeout == -1:\n            timeout = self.timeout\n        if timeout is None:", 'D1'),
     ('popen-eof-branch-data', 'popen_spawn', "        r, self._buf = buf[:size], buf[size:]", "        r, self._buf = buf[:size], buf[size - 1:]", 'D1'),
     ('send-dir-read', 'fdpexpect', "        self._log(s, 'send')", "        self._log(s, 'read')", 'D2'),
     ('async-dir-send', '_async_w_await', "        spawn._log(s, \"read\")", "        spawn._log(s, \"send\")", 'D2'),
